@@ -59,6 +59,7 @@ SIMPLE_ARGS = {
     "relative": False,
     "shared_dir": False,
     "log_debug": False,
+    "arg_style": "plain",
     "r": 3.0,
     "origin": [0.0, 0.0, 0.0],
     "bounds": [[-1, -1, -1], [1, 1, 1]],
